@@ -17,6 +17,12 @@
    * a slice expression that Go rejects at run time yields [Panic]; a panicking assignment
      "*v = ( *v)[..]" leaves the receiver unchanged (the right-hand side panics first).
 
+   Proof structure (Proofs/BufferP.v), two levels: (1) the loops of TrimFront / CapLength as
+   pure functions on the list of headers a header slice exposes, shown to act on the
+   concatenated bytes like trim / cap on a plain byte string for every chunking and every count
+   in Z; (2) the heap-level operations below are shown to compute exactly those functions and to
+   write only the object's own header array (frame), which gives the independence of clones.
+
    Abstractions: nil slices are modelled as empty slices over a fresh zero-length array
    (nil-ness of the results of First/ToView/Prepend is not part of the View model, the driver
    reports it separately where it matters: Prepend); the capacity of the array that append
@@ -74,7 +80,9 @@ Definition view_capLength_twoIndex (v : View) (length : Z) : res View := slice2 
 
 (* func (v *View) NextBytes(size int) []byte { defer v.TrimFront(size); return ( *v)[:size] }
    the result expression is evaluated first, the deferred TrimFront runs in either case and the
-   call panics if either panics; result = (returned slice, new receiver) *)
+   call panics if either panics; result = (returned slice, new receiver).  Whenever the call
+   panics, TrimFront itself panics (size < 0 or size > len: view_nextBytes_panic_iff), so the
+   receiver is unchanged by a panicking call *)
 Definition view_nextBytes (v : View) (size : Z) : res (View * View) :=
   match slice2 v 0 size, view_trimFront v size with
   | Ok r, Ok v' => Ok (r, v')
